@@ -532,7 +532,20 @@ def _validate_chunk(sc, hists, devs, module, tag, timeout):
             break
         mk = re.search(r'<<"MARK", (\d+)>>', txt)
         if not mk or 'Model checking completed' not in txt:
-            raise Inconclusive('TLC failed while validating histories:\n' + txt[-3000:])
+            # TLC could not evaluate some history of the batch (a reply of a shape the specification cannot even
+            # compare with what the command returns): isolate it by splitting; alone, it counts as rejected
+            if len(remaining) == 1:
+                err_line = next((l for l in txt.splitlines() if l.startswith('Error:')), 'TLC evaluation error')
+                rejected.append((remaining[0], 0))
+                stats_all.append({'evaluation_error': err_line[:200]})
+                break
+            half = len(remaining) // 2
+            for part in (remaining[:half], remaining[half:]):
+                a2, r2, s2 = _validate_chunk(sc, part, devs, module, '%s-e%d' % (tag, len(stats_all) + len(part)), timeout)
+                accepted.extend(a2)
+                rejected.extend(r2)
+                stats_all.extend(s2)
+            break
         mark = int(mk.group(1))
         hi, ev = mark // 100000, mark % 100000
         if hi < 1 or hi > len(remaining):
